@@ -146,6 +146,10 @@ def chains_and_guards(ctx) -> None:
     }
     for k, v in want.items():
         ctx.check(v, 'C11.guard', sn, f'subscription check present: {k}', sn.node, key=f'Subscription:{k}')
+    trd = prog.func(f'{ATOMIC}:Worker.trained')
+    ret = next((r for r in core.walk_local(trd.node) if isinstance(r, ast.Return)), None)
+    okt = ret is not None and core.src(ret.value).replace(' ', '') in ('any((isinstance(p,(port.Train,port.Label))forpinself.input))', 'any(isinstance(p,(port.Train,port.Label))forpinself.input)', 'any((isinstance(p,(port.Label,port.Train))forpinself.input))')
+    ctx.check(okt, 'C11.guard', trd, 'a worker counts as trained as soon as it holds a Train *or* a Label subscription (either one makes it a non-publisher and occupies the group\'s single trained slot)', trd.node, key='Worker.trained')
     # Worker.train guards
     tr = prog.func(f'{ATOMIC}:Worker.train')
     g = cfg.CFG(tr.node)
